@@ -96,6 +96,9 @@ type caseIn struct {
 	Recs    []*recIn `json:"recs,omitempty"`    // conc: the records registered concurrently (distinct tunnel ids)
 	Workers int      `json:"workers,omitempty"` // conc storm: number of goroutines
 	Fill    int      `json:"fill,omitempty"`    // sweep: lapsed filler entries that make the sweep long
+	// bridge: the target client's CONTROL connection is registered on the node that starts the source bridge (where a
+	// client's control connection lives says nothing about where its next tunnel connection arrives)
+	LocalTarget bool `json:"local_target,omitempty"`
 }
 
 type recOut struct {
@@ -523,6 +526,9 @@ func runCase(c caseIn) *caseOut {
 						fail(i, "field-"+f, fmt.Sprintf("op #%d on %s: polling lookup of %s returned a different %s: registered %s", i, c.Backend, short(tid), f, d))
 					} else if took < time.Duration(o.Delay)*time.Millisecond {
 						fail(i, "poll-early", fmt.Sprintf("op #%d: polling lookup answered after %v, before the registration at %d ms", i, took, o.Delay))
+					} else if lat := time.Duration(oo.T1 - rel(late.CreatedAt)); lat > pollBound {
+						// the source published after several misses: the next poll must come within the interval cap
+						fail(i, "poll-interval-not-capped", fmt.Sprintf("op #%d on %s: the target was polling for %s; the waiting record was published %d ms after the polling started and lookupTunnelRouting resolved it only %v after the publication (poll interval cap 200 ms, bound %v)", i, c.Backend, short(tid), o.Delay, lat.Round(time.Millisecond), pollBound))
 					}
 					if oo.Res == "ok" {
 						cur[ck((node+1)%len(w.tables), tid)] = &regInfo{st: *late, node: (node + 1) % len(w.tables), created: rel(late.CreatedAt), expires: rel(late.ExpiresAt)}
@@ -743,6 +749,55 @@ type bridgeOut struct {
 	EndMs   int64    `json:"lifecycle_end_ms"` // how long after the ending event the bridge left the index
 }
 
+// localwait: the waiting record says the tunnel waits on THIS node but the bridge is not indexed yet (ordering of the two
+// steps of startSourceBridge as seen by a target connection that is already here): processCrossNodeForward ->
+// handleLocalBridgeWait polls the bridge index with the same back-off as lookupTunnelRouting.  The bridge appears Delay ms
+// later; the target must be attached within pollBound of that.
+const pollBound = 1000 * time.Millisecond // pollMaxInterval (200 ms) + scheduling slack
+
+func runLocalWait(c caseIn, out *bridgeOut, w *world, sm *session.SessionManager, tid, mid, secret string,
+	fail func(string, string), ev func(string, ...interface{})) {
+	bg := context.Background()
+	must(w.tables[1].RegisterWaitingTunnel(bg, &tunnel.WaitingState{TunnelID: tid, MappingID: mid, SourceNodeID: "node-a"}))
+	delay := time.Duration(c.Fill) * time.Millisecond
+	mgr := session.NewTunnelConnectionManager(w.tables[0].GetNodeAddress, session.DefaultTunnelConnectionManagerConfig())
+	defer mgr.Close()
+	sm.SetTunnelConnectionManager(mgr)
+	srv, cli := net.Pipe()
+	defer srv.Close()
+	defer cli.Close()
+	go io.Copy(io.Discard, cli)
+	conn, err := sm.CreateConnection(srv, srv)
+	must(err)
+	var startedAt time.Time
+	done := make(chan error, 1)
+	t0 := time.Now()
+	go func() { done <- session.VerifHandleCrossNodeTarget(sm, tid, mid, conn, srv) }()
+	time.Sleep(delay)
+	s1, c1 := net.Pipe()
+	defer s1.Close()
+	defer c1.Close()
+	startedAt = time.Now()
+	must(session.VerifStartSourceBridge(sm, tid, mid, secret, s1))
+	ev("bridge indexed %v after the target connection arrived", startedAt.Sub(t0).Round(time.Millisecond))
+	select {
+	case err := <-done:
+		lat := time.Since(startedAt)
+		out.Judged++
+		ev("handleLocalBridgeWait returned %v after the bridge appeared: %v", lat.Round(time.Millisecond), err)
+		if err != nil {
+			fail("local-bridge-wait-failed", fmt.Sprintf("localwait on %s: the target connection for %s was on the source node before the bridge was indexed; the bridge appeared %v later but the wait ended with %v", c.Backend, short(tid), delay, err))
+		} else if lat > pollBound {
+			fail("poll-interval-not-capped", fmt.Sprintf("localwait on %s: the bridge of %s was indexed %v after the target connection arrived, yet handleLocalBridgeWait attached the target only %v after that (poll interval cap 200 ms, bound %v)", c.Backend, short(tid), delay, lat.Round(time.Millisecond), pollBound))
+		}
+	case <-time.After(6 * time.Second):
+		fail("local-bridge-wait-failed", fmt.Sprintf("localwait on %s: handleLocalBridgeWait did not return within 6 s although the bridge was indexed after %v", c.Backend, delay))
+	}
+	if b := session.VerifBridge(sm, tid); b != nil {
+		b.Close()
+	}
+}
+
 func runBridge(c caseIn) *bridgeOut {
 	out := &bridgeOut{Stream: "bridge", Backend: c.Backend, Way: c.Way, PropOK: true, FailAt: -1, Obs: []opOut{}, Events: []string{}}
 	fail := func(key, msg string) {
@@ -819,6 +874,26 @@ func runBridge(c caseIn) *bridgeOut {
 
 	if _, err := resolves(1); err == nil {
 		fail("lookup-unregistered", "the id resolves before any bridge was started")
+	}
+	if c.LocalTarget {
+		cs, cc := net.Pipe()
+		defer cs.Close()
+		defer cc.Close()
+		go io.Copy(io.Discard, cc) // the target client reads the TunnelOpen command node-a pushes over its control connection
+		tc, err := sm.CreateConnection(cs, cs)
+		must(err)
+		ctl := session.NewControlConnection(tc.ID, tc.Stream, nil, "tcp")
+		ctl.SetClientID(r.Dst)
+		ctl.SetAuthenticated(true)
+		sm.RegisterControlConnection(ctl)
+		if sm.GetControlConnectionByClientID(r.Dst) == nil {
+			panic("control connection of the target client was not registered")
+		}
+		ev("target client %d has its control connection on node-a", r.Dst)
+	}
+	if c.Way == "localwait" {
+		runLocalWait(c, out, w, sm, tid, mid, secret, fail, ev)
+		return out
 	}
 	srvSide, cliSide := net.Pipe()
 	defer srvSide.Close()
